@@ -7,8 +7,11 @@ seed, sid, prop, demodir, base = sys.argv[1:6]
 checks = sys.argv[6:]
 dst = f"/verif/seeded/{sid}"
 os.makedirs(dst, exist_ok=True)
+prev = None
+if os.path.exists(os.path.join(dst, "meta.json")):
+    prev = json.load(open(os.path.join(dst, "meta.json")))
 for f in ("patch.diff", "demo_test.go", "meta.txt"):
-    if os.path.exists(os.path.join(seed, f)):
+    if os.path.exists(os.path.join(seed, f)) and os.path.abspath(seed) != os.path.abspath(dst):
         shutil.copy(os.path.join(seed, f), os.path.join(dst, f))
 out = subprocess.run(["/verif/tools/tryseed.sh", seed, demodir] + checks, capture_output=True, text=True).stdout
 print(out)
@@ -32,5 +35,8 @@ meta = {
     "checks_run_quick_tier": res,
     "caught_by": sorted(k for k, v in res.items() if v["exit"] == 1),
 }
+if prev is not None and (prev.get("missed_at_first") or not prev.get("caught_by")):
+    meta["missed_at_first"] = True
+    meta["first_run_checks"] = prev.get("first_run_checks") or prev.get("checks_run_quick_tier")
 json.dump(meta, open(os.path.join(dst, "meta.json"), "w"), indent=1)
 print("kept", sid, "caught_by", meta["caught_by"])
